@@ -20,22 +20,30 @@ def how(first):
 
 rows = []
 caught = 0
+obsolete = 0
+RV = {}
+if os.path.exists(os.path.join(HERE, "seeded", "REVERIFY.json")):
+    RV = json.load(open(os.path.join(HERE, "seeded", "REVERIFY.json")))
 for n in names:
     meta = json.load(open(os.path.join(HERE, "seeded", n, "meta.json")))
     m = M.get(n, {})
     c = bool(m.get("caught"))
-    caught += c
+    caught += c and RV.get(n, {}).get("status", "valid") == "valid"
     first = m.get("first", "")
     rp = re.search(r"replay=\S*/([^/\s]+)\.[0-9a-f]{10}\.json", first)
     ob = rp.group(1)[:70] if rp else first[:70]
     nfi = " (no-failing-input-found)" if "no-failing-input-found" in first else ""
     needs = " ".join(meta.get("needs_to_manifest", "").split())[:150]
-    rnd = "2" if n[-1] in "cd" else "1"
+    rnd = {"a": "1", "b": "1", "c": "2", "d": "2", "e": "3", "f": "3", "g": "4", "h": "4"}.get(n[-1], "?")
+    if RV.get(n, {}).get("status", "valid") != "valid":
+        rows.append(f"| {n} | {rnd} | {needs} | obsolete: {RV[n]['status']} at {RV[n]['head']} | - |")
+        obsolete += 1
+        continue
     rows.append(f"| {n} | {rnd} | {needs} | {'yes (' + how(first) + ')' + nfi if c else 'NO'} | `{ob}` |")
 
 text = f"""## 9. Seeded changes vs checks (tools/seed_matrix.py, quick tier, scratch worktree of the fixed tree)
 
-{caught} of {len(names)} seeded changes are reported as a VIOLATION by the quick check of their property (exit 1); none of them is visible to the pinned test suite (each keeps `1466 passed, 16 errors`). Round 1 (-a/-b) and round 2 (-c/-d: the authors were asked to avoid the obvious anchor functions) were written by fresh sub-agents that saw only the property text and a scratch worktree. 'proof obligation' = refuted symbolic / ground obligation with a counter-model replayed natively; 'bounded tier' = found by the native small-scope contract evaluation only; 'static' = refuted frame / order / identity obligation (no input exists for these: the VIOLATION line ends with no-failing-input-found).
+{caught} of {len(names) - obsolete} live seeded changes are reported as a VIOLATION by the quick check of their property (exit 1); none of them is visible to the pinned test suite (each keeps `1466 passed, 16 errors`); {obsolete} further seed(s) no longer break anything on the current tree because a `fix:` commit closed the hole they used (tools/seed_reverify.py re-checks every seed against /repo's HEAD: patch applies, demonstration passes clean / fails patched, pinned suite unchanged). Rounds 1-4 (-a/-b, -c/-d, -e/-f, -g/-h; from round 2 on the authors were asked to avoid the obvious anchor functions, from round 3 on to need something specific - a second call, a reverse-strand chunk, cooperating sites) were written by fresh sub-agents that saw only the property text and a scratch worktree. 'proof obligation' = refuted symbolic / ground obligation with a counter-model replayed natively; 'bounded tier' = found by the native small-scope contract evaluation only; 'static' = refuted frame / order / identity obligation (no input exists for these: the VIOLATION line ends with no-failing-input-found).
 
 {MISSED_TEXT}
 
